@@ -289,7 +289,8 @@ func ParsePipe(match string) ([]*PipeSelector, error) {
 func ParseSelector(selector string) ([]any, error) {
 	functions := strings.SplitN(selector, "=>", 2)
 	slice := make([]any, 0)
-	if len(functions) == 2 {
+	// a top-level function name is a plain word: `data[keep=>0:1]` is not a function call
+	if len(functions) == 2 && !strings.ContainsAny(functions[0], "[]{}.' ") {
 		selector = functions[1]
 		slice = append(slice, TopLevelFunctionSelector(functions[0]))
 	}
